@@ -763,6 +763,14 @@ class _Activation:
         return {o}
 
     def call_external(self, fq: str, e, argv, kwv) -> Set[Obj]:
+        # numpy / scipy "you may destroy my input" switches: overwrite_input=True (median, percentile, quantile ...),
+        # overwrite_a / overwrite_b / overwrite_x (scipy.linalg, scipy.fft), copy=False on in-place capable helpers
+        for k in getattr(e, "keywords", []):
+            if k.arg in ("overwrite_input", "overwrite_a", "overwrite_b", "overwrite_x", "overwrite_ab") and \
+                    not (isinstance(k.value, ast.Constant) and k.value.value is False):
+                idx = 1 if k.arg == "overwrite_b" else 0
+                if idx < len(argv):
+                    self.oa.record(self.fi, e, argv[idx], "inplace:" + fq + "(" + k.arg + ")", self.ctx)
         if fq in INPLACE_FUNCS:
             for i in INPLACE_FUNCS[fq]:
                 if i < len(argv):
